@@ -294,7 +294,10 @@ namespace options
             }
         }
 
-        s << "usage: " << app_name_;
+        // the synopsis is assembled on its own, so wrapping doesn't depend on the state of s
+        std::stringstream synopsis;
+
+        synopsis << "usage: " << app_name_;
 
         std::stringstream usage;
 
@@ -334,10 +337,10 @@ namespace options
         {
             out = out.substr(1);
 
-            nitro::io::terminal::format_padded(s, out, 8 + app_name_.size(), 80);
+            nitro::io::terminal::format_padded(synopsis, out, 8 + app_name_.size(), 80);
         }
 
-        s << std::endl << std::endl;
+        s << synopsis.str() << std::endl << std::endl;
 
         if (!about_.empty())
         {
